@@ -350,15 +350,12 @@ def check_deploy_params(book, forest, report, stats=None):
     fmt = env.formatter(vendor)
     paths = fmt.cmd_paths(build_patch(forest))
     case = {"part": "D", "deploy": text, "forest": forest}
-    saved = deploy.get_rulebook
-    deploy.get_rulebook = lambda _hw: {"deploying": compiled}
     try:
-        cl = list(deploy.apply_deploy_rulebook(hw, paths, do_finalize=False, do_commit=False))
+        with env.rulebook_override(lambda _hw, _real: {"deploying": compiled}):
+            cl = list(deploy.apply_deploy_rulebook(hw, paths, do_finalize=False, do_commit=False))
     except Exception as e:  # noqa
         report({"kind": "apply-exception", "part": "D", "exc": type(e).__name__}, case, repr(e)[:300])
         return 0
-    finally:
-        deploy.get_rulebook = saved
     body = cl[1:-1]   # huawei: system-view ... q
     hits = 0
     if len(body) != len(list(paths.keys())):
@@ -398,15 +395,12 @@ def check_wrappers(rb_text, seq, flags, report):
     compiled = compile_deploying_text(rb_text, "aruba")
     paths = odict(((c,), {}) for c in seq)
     case = {"part": "W", "deploy": rb_text, "commands": list(seq), "flags": list(flags)}
-    saved = deploy.get_rulebook
-    deploy.get_rulebook = lambda _hw: {"deploying": compiled}
     try:
-        cl = list(deploy.apply_deploy_rulebook(hw, paths, do_finalize=flags[1], do_commit=flags[0]))
+        with env.rulebook_override(lambda _hw, _real: {"deploying": compiled}):
+            cl = list(deploy.apply_deploy_rulebook(hw, paths, do_finalize=flags[1], do_commit=flags[0]))
     except Exception as e:  # noqa
         report({"kind": "apply-exception", "part": "W", "exc": type(e).__name__}, case, repr(e)[:300])
         return 0
-    finally:
-        deploy.get_rulebook = saved
     body = [c.cmd for c in cl if c.cmd in W_COMMANDS]
     if body != list(seq):
         report({"kind": "stream-order-differs-from-patch", "part": "W",
